@@ -1,86 +1,299 @@
-import ZipVerif.Props.C12
+import ZipVerif.Lemmas.AppendClosed
+import ZipVerif.Props.C03
 /-
-C13 — Appending keeps every existing entry and adds the new ones.
+C13 — Appending to an existing archive: the OPENING half.
 
-First layer (this file, until `Lemmas/AppendOpen.lean` / `Lemmas/WL*.lean` are merged): the
-mechanism that protects the existing entries, on the writer model, for every state the append
-constructor can return:
-* `append_state_shape`: what `new_append` returns when it succeeds — the re-hydrated directory as the
-  entry list, the old comment, the raw flag set, nothing open;
-* `base_entries_not_repatched`: the first `finish_file` after `new_append` (run by the first
-  `start_file`, or by `finish`) does no I/O at all and leaves every re-hydrated record untouched —
-  the raw flag suppresses the CRC/size back-patch that would otherwise overwrite the LAST old
-  entry's local header with the fresh writer's zero statistics;
-* `set_comment_only_comment`: replacing the comment between rounds touches nothing else.
-The archive-level statement (the bytes after `finish` are `Spec.Zip.build` of the old entries followed
-by the new ones, hence read back as such) is the subject of `Lemmas/AppendOpen.lean` + `Lemmas/WL*.lean`.
+What `ZipWriter::new_append` (`Model.newAppend`) returns on the bytes of a well-formed archive from any
+producer (`Spec.Zip.build l`, as in C03), and that the state it returns is the base shape of the
+"writer emits a layout" invariant (`Lemmas/WLDefs.lean`): the re-hydrated records are `WL.Closed` for
+explicitly NORMALISED spec entries (`WL.appendNorm`), which say exactly what the rewritten central
+directory will contain.  Proofs: `Lemmas/AppendOpen.lean`, `Lemmas/AppendClosed.lean`.
 -/
 
 namespace ZipVerif.Props.C13
-open ZipVerif ZipVerif.Model
+open ZipVerif ZipVerif.Model ZipVerif.Spec.Zip ZipVerif.WL
 
-/-- The states `new_append` returns. -/
-def BaseState (s : WState) : Prop :=
-  s.inner = .storer none ∧ s.writingToFile = false ∧ s.writingToExtraField = false ∧
-  s.centralOnly = false ∧ s.writingRaw = true
+/-! ## 1. What `new_append` returns -/
 
-theorem bind_ok {α β} {x : M α} {f : α → M β} {fa : Option Nat} {d d' : Dev} {b : β}
-    (h : (x >>= f) fa d = (.ok b, d')) : ∃ a d1, x fa d = (.ok a, d1) ∧ f a fa d1 = (.ok b, d') := by
-  rw [M.bind_apply] at h
-  split at h
-  · next a d1 he => exact ⟨a, d1, he, h⟩
-  · cases h
-  · cases h
+/-- **`newAppend_on_layout`** — for every layout that `reader_on_wf` (C03) covers: `new_append` returns
+the writer state `{ init with files := viewOf l, comment := l.comment, writing_raw := true }`; the sink
+still holds the archive and is positioned on the first byte of the OLD central directory
+(`l.pre.length + l.cdOffset`), which the appending writer overwrites.  The unconditional disk-number
+check and the D16 check `directory_start > cde_start` pass on a layout. -/
+theorem newAppend_on_layout (l : Layout) (hF : l.Fits) (hR : l.Readable) (hS : Spec.Zip.NoFalseSig l)
+    (ht : l.trailing = [] ∨ l.needs64 = false) :
+    ∃ d', newAppend.runPure (Dev.ofBytes (build l)) =
+        (.ok { WState.init with files := viewOf l, comment := l.comment, writingRaw := true }, d') ∧
+      d'.buf = build l ∧ d'.pos = l.cdStart :=
+  Model.newAppend_on_layout l hF hR hS ht
 
-theorem throw_ne_ok {α} {e : ZErr} {fa : Option Nat} {d d' : Dev} {a : α}
-    (h : (M.throw e : M α) fa d = (.ok a, d')) : False := by
-  cases h
+/-- The live part of the sink (what lies in front of the position) after `new_append`. -/
+theorem newAppend_live (l : Layout) :
+    (build l).take l.cdStart = l.pre ++ localsBytes l.entries ++ l.gapBeforeCd :=
+  take_cdStart l
 
-/-- `new_append` returns a `BaseState` whenever it succeeds — for every input archive, valid or
-not, and every fault index. -/
-theorem append_state_shape (fa : Option Nat) (d : Dev) (s : WState) (d' : Dev)
-    (h : newAppend fa d = (.ok s, d')) : BaseState s := by
-  unfold newAppend at h
-  obtain ⟨⟨footer, cdeStart⟩, d1, _, h⟩ := bind_ok h
-  dsimp only at h
-  split at h
-  · exact (throw_ne_ok h).elim
-  obtain ⟨⟨ao, ds, n⟩, d2, _, h⟩ := bind_ok h
-  dsimp only at h
-  split at h
-  · exact (throw_ne_ok h).elim
-  obtain ⟨r, d3, _, h⟩ := bind_ok h
-  cases r with
-  | error e => exact (throw_ne_ok h).elim
-  | ok v =>
-    dsimp only at h
-    obtain ⟨files, d4, _, h⟩ := bind_ok h
-    obtain ⟨_, d5, _, h⟩ := bind_ok h
-    cases h
-    exact ⟨rfl, rfl, rfl, rfl, rfl⟩
+/-! ## 2. The bridge: re-hydrated records are `Closed` for the normalised entries -/
 
-/-- **The old entries are not re-patched.**  In a `BaseState` the implicit `finish_file` (run by the
-first creation call and by `finish`) performs NO I/O call and changes nothing but the two flags: the
-re-hydrated records — in particular the last one, whose local header a fresh writer's zero
-statistics would otherwise overwrite — stay exactly as parsed. -/
-theorem base_entries_not_repatched (ext : WExt) (s : WState) (hs : BaseState s) (fa : Option Nat)
-    (d : Dev) :
-    finishFile ext s fa d = (.ok (.ok (), { s with writingToFile := false, writingRaw := false }), d) := by
-  obtain ⟨h1, h2, h3, h4, h5⟩ := hs
-  obtain ⟨inner, files, sS, sB, sH, wF, wE, cO, wR, cm⟩ := s
-  dsimp only at h1 h2 h3 h4 h5
-  subst h1 h2 h3 h4 h5
+/-- What the normalised entry records, field by field (`v` = the re-hydrated record). -/
+theorem appendNorm_fields (e : Entry) (off pre : Nat) :
+    let v := viewEntry e off pre 0
+    let n := appendNorm e off pre
+    n.madeBy = ((System.fromU8 (e.madeBy >>> 8).toUInt8).discr <<< 8) ||| e.madeBy.toUInt8.toUInt16 ∧
+    n.versionNeeded = v.versionNeeded ∧ n.flags = centralFlagOf v ∧ n.flagsOut = centralFlagOf v ∧
+    centralFlagOf v = (((if !isAscii v.fileName then (0x0800 : UInt16) else 0) |||
+      (if e.flagsOut &&& 1 == 1 then 1 else 0)) ||| (if e.flagsOut &&& 0x0008 != 0 then 8 else 0)) ∧
+    n.method = e.method ∧ n.time = e.time ∧ n.date = e.date ∧ n.crc = e.crc ∧ n.usize = e.usize ∧
+    n.csize = e.csize ∧ n.name = Text.decodeToUtf8 (e.flagsOut &&& 0x0800 != 0) e.name ∧
+    n.centralExtra = e.centralZ64 (UInt64.ofNat off) ++ e.centralExtra ∧
+    n.comment = [] ∧ n.internalAttrs = 0 ∧ n.externalAttrs = e.externalAttrs ∧
+    n.z64 = (false, false, false) ∧ n.desc = e.desc ∧
+    n.localExtra = e.localExtra ∧ n.localZip64 = e.localZip64 ∧ n.gapBefore = e.gapBefore ∧
+    n.data = e.data ∧ n.localVersion = some (e.localVersion.getD e.versionNeeded) :=
+  ⟨rfl, rfl, rfl, appendNorm_flagsOut e off pre 0, rfl, rfl, rfl, rfl, rfl, rfl, rfl, rfl, rfl, rfl, rfl,
+    rfl, rfl, rfl, rfl, rfl, rfl, rfl, rfl⟩
+
+/-- The method and the DOS stamp the writer re-emits are the old ones: `from_u16`/`to_u16` and
+`from_msdos`/`datepart`,`timepart` round-trip on EVERY value (C18 `dos_unpack_pack`), so `appendNorm`
+keeps `e.method`, `e.time`, `e.date` verbatim. -/
+theorem appendNorm_method_time (e : Entry) (off pre chs : Nat) :
+    let v := viewEntry e off pre chs
+    v.method.toU16 = e.method ∧ v.time.timepart = e.time ∧ v.time.datepart = some e.date :=
+  ⟨method_roundtrip e.method, (msdos_roundtrip e.date e.time).2, (msdos_roundtrip e.date e.time).1⟩
+
+/-- **`view_closed`** — the record `new_append` holds for entry `e` (local header `off` bytes behind a
+prefix of `pre` bytes) serialises, through `write_central_directory_header`, to the spec's central
+record of `appendNorm e off pre` at the absolute offset `off + pre`.  The only side condition is that
+the new ZIP64 record plus the kept old extra field fit the 16-bit length field. -/
+theorem view_closed (e : Entry) (off pre chs : Nat) (hfit : AppendFits e off pre) :
+    Closed (appendNorm e off pre) (off + pre) (viewEntry e off pre chs) :=
+  WL.view_closed e off pre chs hfit
+
+/-- `AppendFits` holds when the foreign extra data leave room for two ZIP64 records. -/
+theorem appendFits_of_small (e : Entry) (off pre : Nat) (h : e.centralExtra.length + 56 ≤ 0xFFFF) :
+    AppendFits e off pre := WL.appendFits_of_small e off pre h
+
+/-- **The local record survives** exactly under `AppendClean`: the name decodes to itself, the flag word
+is what the writer recomputes (bit 11 iff the name is not ASCII; bit 0 and bit 3 kept; nothing else).
+Then the normalised entry — whose central record is what the writer emits — has the OLD local bytes,
+data descriptor included. -/
+theorem appendNorm_localBytes (e : Entry) (off pre : Nat) (h : AppendClean e) :
+    (appendNorm e off pre).localBytes = e.localBytes := WL.appendNorm_localBytes e off pre h
+
+/-- A sufficient condition for the name clause of `AppendClean`: ASCII, or flagged UTF-8 and well formed. -/
+theorem name_stable (utf8 : Bool) (name : Bytes)
+    (h : isAscii name = true ∨ (utf8 = true ∧ (Spec.utf8Strict name).isSome = true)) :
+    Text.decodeToUtf8 utf8 name = name := decode_stable utf8 name h
+
+/-- **Entries the crate's own writer produced are `AppendClean`** (their name is a Rust `String`) … -/
+theorem writer_entries_clean (f : FileData) (dp : UInt16) (gap lx data : Bytes) (lv : UInt16)
+    (hs : (Spec.utf8Strict f.fileName).isSome = true) :
+    AppendClean (specEntry f dp gap lx data lv) := specEntry_appendClean f dp gap lx data lv hs
+
+/-- … **and fixed points of `appendNorm` up to the central extra field**: write → append → append …
+re-emits the same central record each time, except that an entry that needs ZIP64 gets one more copy of
+its ZIP64 record in front of the kept extra field on every round.  (`hm`: the method is not an
+`Unsupported(v)` with `v` one of the known codes — true of every value the reader produces.) -/
+theorem writer_entries_fixed (f : FileData) (dp : UInt16) (gap lx data : Bytes) (lv : UInt16) (off : Nat)
+    (hs : (Spec.utf8Strict f.fileName).isSome = true)
+    (hm : Method.fromU16 f.method.toU16 = f.method)
+    (hcs : f.compressedSize = UInt64.ofNat data.length)
+    (hoff : f.headerStart = UInt64.ofNat off) :
+    appendNorm (specEntry f dp gap lx data lv) off 0 =
+      { specEntry f dp gap lx data lv with
+        centralExtra := centralZip64Bytes f ++ f.extraField
+        localVersion := some lv } :=
+  appendNorm_specEntry f dp gap lx data lv off hs hm hcs hoff
+
+/-- Without ZIP64 fields the fixed point is exact. -/
+theorem writer_entries_fixed_plain (f : FileData) (dp : UInt16) (gap lx data : Bytes) (lv : UInt16) (off : Nat)
+    (hs : (Spec.utf8Strict f.fileName).isSome = true)
+    (hm : Method.fromU16 f.method.toU16 = f.method)
+    (hcs : f.compressedSize = UInt64.ofNat data.length)
+    (hoff : f.headerStart = UInt64.ofNat off) (hz : centralZip64Bytes f = []) :
+    appendNorm (specEntry f dp gap lx data lv) off 0 = specEntry f dp gap lx data lv := by
+  rw [writer_entries_fixed f dp gap lx data lv off hs hm hcs hoff, hz]
   rfl
 
-/-- … and that state is an ordinary idle writer state: nothing open, every record closed. -/
-theorem after_first_finish_file (s : WState) (hs : BaseState s) :
-    let s' := { s with writingToFile := false, writingRaw := false }
-    s'.files = s.files ∧ s'.comment = s.comment ∧ s'.inner = .storer none ∧ s'.writingRaw = false :=
-  ⟨rfl, rfl, hs.1, rfl⟩
+/-! ## 3. The whole directory -/
 
-/-- `set_comment` between rounds replaces the comment and nothing else; without it the old comment
-(kept by `new_append`) is written back by `finish`. -/
-theorem set_comment_only_comment (ext : WExt) (c : Bytes) (s : WState) (fa : Option Nat) (d : Dev) :
-    C12.step ext (.setComment c) s fa d = (.ok (.ok none, { s with comment := c }), d) := rfl
+/-- **`viewOf_closedAll`** — the re-hydrated records are `ClosedAll`, from offset 0, for the normalised
+entries of the prefix-less archive the appending writer continues (`appendNormAll l`: the old prefix
+becomes dead bytes in front of the first local header). -/
+theorem viewOf_closedAll (l : Layout)
+    (hall : ∀ e ∈ l.entries, AppendClean e ∧ e.centralExtra.length + 56 ≤ 0xFFFF) :
+    ClosedAll (appendNormAll l) 0 (viewOf l) := WL.viewOf_closedAll l hall
+
+/-- … and their local part, followed by the dead bytes `appendGap l`, is what the sink holds in front of
+the old central directory. -/
+theorem appendNormAll_bytes (l : Layout) (hall : ∀ e ∈ l.entries, AppendClean e) :
+    localsBytes (appendNormAll l) ++ appendGap l = (build l).take l.cdStart := by
+  rw [take_cdStart]; exact WL.appendNormAll_bytes l hall
+
+/-- **`append_open_is_base_state`** — shape (A) of the writer invariant. -/
+theorem append_open_is_base_state (l : Layout) (hF : l.Fits) (hR : l.Readable) (hS : Spec.Zip.NoFalseSig l)
+    (ht : l.trailing = [] ∨ l.needs64 = false)
+    (hall : ∀ e ∈ l.entries, AppendClean e ∧ e.centralExtra.length + 56 ≤ 0xFFFF) :
+    ∃ s d, newAppend.runPure (Dev.ofBytes (build l)) = (.ok s, d) ∧
+      d.buf = build l ∧ d.pos = l.cdStart ∧
+      d.buf.take d.pos = localsBytes (appendNormAll l) ++ appendGap l ∧
+      ClosedAll (appendNormAll l) 0 s.files ∧
+      s.files = viewOf l ∧ s.comment = l.comment ∧
+      s.inner = .storer none ∧ s.writingToFile = false ∧ s.writingToExtraField = false ∧
+      s.centralOnly = false ∧ (s.files = [] ∨ s.writingRaw = true) :=
+  WL.append_open_is_base_state l hF hR hS ht hall
+
+/-- Is the continued archive again one that C03 reads?  Entry-wise: yes when the entry is `AppendClean`,
+its extra data are small and its OLD central record had no ZIP64 record.  (With one, the kept copy makes
+`centralExtra` contain identifier 0x0001, which `Entry.Readable` excludes — see the finding below.) -/
+theorem appendNorm_again_wf (e : Entry) (off pre : Nat) (hf : e.Fits) (hr : e.Readable)
+    (hc : AppendClean e) (hx : e.centralExtra.length + 56 ≤ 0xFFFF)
+    (hz : e.zU = false ∧ e.zC = false ∧ e.zO (UInt64.ofNat off) = false) :
+    (appendNorm e off pre).Fits ∧ (appendNorm e off pre).Readable :=
+  ⟨appendNorm_fits e off pre hf hc hx, appendNorm_readable e off pre hr hz⟩
+
+/-! ## 4. Non-vacuity and findings (kernel evaluation) -/
+
+open ZipVerif.Props.C03 (exA exB exL)
+
+/-- `new_append` on the 251-byte archive `build exL` (5-byte prefix, two entries, comment "hi") really
+evaluates to the stated state and position. -/
+example :
+    (match newAppend.runPure (Dev.ofBytes (build exL)) with
+     | (.ok s, d) => s.files == viewOf exL && s.comment == [0x68, 0x69] && s.writingRaw &&
+        s.inner == .storer none && !s.writingToFile && !s.writingToExtraField && !s.centralOnly &&
+        d.buf == build exL && d.pos == exL.cdStart && d.pos == 5 + exL.cdOffset &&
+        s.files.map (·.headerStart) == [5, 48]
+     | _ => false) = true := by decide +kernel
+
+/-- `exA` is `AppendClean` and its re-hydrated record is `Closed` hypotheses-wise. -/
+example : AppendClean exA ∧ AppendFits exA 0 5 ∧ exA.centralExtra.length + 56 ≤ 0xFFFF := by decide +kernel
+
+/-- The bridge on the concrete entry, evaluated: the writer's central header for the re-hydrated `exA`
+IS the spec's central record of the normalised entry at offset 0 + 5, and the local bytes are kept. -/
+example :
+    (match centralHeaderChunks (viewEntry exA 0 5 107) with
+     | .ok cs => ser cs == centralRecord (appendNorm exA 0 5) 5
+     | _ => false) = true ∧
+    (appendNorm exA 0 5).localBytes = exA.localBytes := by decide +kernel
+
+/-- **A data-descriptor entry stays consistent.**  `exBd` = `exB` (streamed: data descriptor with zeroed
+local CRC/sizes, 3 junk bytes before its header, DOS host, ZIP64 record in the central header) with
+an honest flag word (no UTF-8 bit on its ASCII name): it is `AppendClean`; the rewritten central record
+keeps bit 3 (`0x0008`), exactly the flag word of its untouched local header, and the normalised entry has
+the old local bytes (descriptor included).  The entry comment and the internal attributes are dropped
+from the central record. -/
+def exBd : Entry := { exB with flags := 0 }
+
+example :
+    AppendClean exBd ∧ exBd.hasDesc = true ∧ exBd.flagsOut = 0x0008 ∧
+    (appendNorm exBd 43 5).flagsOut = 0x0008 ∧
+    (appendNorm exBd 43 5).localBytes = exBd.localBytes ∧
+    (appendNorm exBd 43 5).comment = [] ∧ exBd.comment = [0x63] ∧
+    (appendNorm exBd 43 5).internalAttrs = 0 ∧ exBd.internalAttrs = 1 ∧
+    (match centralHeaderChunks (viewEntry exBd 43 5 158) with
+     | .ok cs => ser cs == centralRecord (appendNorm exBd 43 5) 48 &&
+        ((ser cs).drop 8).take 2 == [0x08, 0x00]
+     | _ => false) = true ∧
+    ((localRecord exBd).drop 6).take 2 = [0x08, 0x00] := by decide +kernel
+
+/-- **Finding (UTF-8 flag on an ASCII name).**  `exB` itself sets bit 11 although its name "b" is ASCII
+(legal, and common).  The writer recomputes bit 11 from the decoded name: the rewritten central record
+has flags 0x0008 while the untouched local header keeps 0x0808 — the two records of the entry disagree
+after append + finish.  `exB` is not `AppendClean`. -/
+example :
+    ¬ AppendClean exB ∧ exB.flagsOut = 0x0808 ∧ (appendNorm exB 43 5).flagsOut = 0x0008 ∧
+    (match centralHeaderChunks (viewEntry exB 43 5 158) with
+     | .ok cs => ser cs == centralRecord (appendNorm exB 43 5) 48 &&
+        ((ser cs).drop 8).take 2 == [0x08, 0x00]
+     | _ => false) = true ∧
+    ((localRecord exB).drop 6).take 2 = [0x08, 0x08] := by decide +kernel
+
+/-- **Finding (ZIP64 record duplicated).**  `exB`'s old central header carries a ZIP64 record (compressed
+size forced through it).  The re-hydrated `extra_field` keeps it, so the rewritten central extra field
+is `old ZIP64 record ++ foreign records`; had a size really needed ZIP64, `write_central_zip64_extra_field`
+would put a SECOND 0x0001 record in front.  The normalised entry is therefore not `Readable` in the sense
+of C03 (identifier 0x0001 inside `centralExtra`). -/
+example :
+    (appendNorm exB 43 5).centralExtra = le16 1 ++ le16 8 ++ le64 5 ++ exB.centralExtra ∧
+    ¬ (appendNorm exB 43 5).Readable := by decide +kernel
+
+/-- A host other than DOS/Unix is renumbered to 4, the low byte is kept. -/
+example : (appendNorm { exA with madeBy := 0x0a3f } 0 0).madeBy = 0x043f ∧
+    (appendNorm { exA with madeBy := 0x033f } 0 0).madeBy = 0x033f ∧
+    (appendNorm { exA with madeBy := 0x0014 } 0 0).madeBy = 0x0014 := by decide +kernel
+
+/-- "version needed" is recomputed, not kept (45 in the old record of a plain stored entry becomes 20);
+general-purpose bits other than 0, 3 and 11 (here bits 1-2, a deflate option) are dropped — such an entry is
+not `AppendClean`. -/
+example : (appendNorm { exA with versionNeeded := 45 } 0 0).versionNeeded = 20 ∧
+    (appendNorm { exA with flags := 0x0006 } 0 0).flags = 0 ∧
+    ¬ AppendClean { exA with flags := 0x0006 } := by decide +kernel
+
+/-- A CP437 name (0x81 = 'ü') is transcoded: the rewritten central record has the UTF-8 name (2 bytes)
+with bit 11 set, the local header keeps the 1-byte CP437 name — not `AppendClean`, and the local
+record's LENGTH changes, so not even the offsets of later entries survive in `appendNorm`'s terms. -/
+example :
+    let e : Entry := { exA with name := [0x81] }
+    (appendNorm e 0 0).name = [0xc3, 0xbc] ∧ (appendNorm e 0 0).flags = 0x0800 ∧ ¬ AppendClean e ∧
+    (appendNorm e 0 0).localBytes.length = e.localBytes.length + 1 := by decide +kernel
+
+/-- A layout all of whose entries are `AppendClean`, satisfying every hypothesis of
+`append_open_is_base_state`; the conclusion evaluated. -/
+def exLc : Layout :=
+  { exL with entries := [exA, { exA with name := [0xc3, 0xbc], flags := 0x0800, gapBefore := [7, 7] }, exBd] }
+
+example : exLc.Fits ∧ exLc.Readable ∧ Spec.Zip.NoFalseSig exLc ∧ exLc.needs64 = false ∧
+    (∀ e ∈ exLc.entries, AppendClean e ∧ e.centralExtra.length + 56 ≤ 0xFFFF) := by decide +kernel
+
+example :
+    localsBytes (appendNormAll exLc) ++ appendGap exLc = (build exLc).take exLc.cdStart ∧
+    (appendNormAll exLc).map (·.gapBefore) = [[0x23, 0x21, 0x2f, 0x62, 0x0a], [7, 7], [0xde, 0xad, 0xbe]] ∧
+    localOffsets (appendNormAll exLc) 0 = (viewOf exLc).map (·.headerStart.toNat) := by decide +kernel
+
+def bigPayload : Bytes := List.replicate 65503 0
+theorem bigPayload_length : bigPayload.length = 65503 := List.length_replicate
+
+/-- **Finding (`AppendFits` is a real restriction).**  An entry that `Fits`, is `Readable`, whose central
+header has all three ZIP64 fields forced and whose uncompressed size really is ≥ 0xFFFFFFFF, with 65507
+bytes of foreign extra data: the re-hydrated extra field has 65535 bytes, the new ZIP64 record adds 12,
+and `write_central_directory_header` fails with `InvalidArchive` — `finish()` after `new_append` errors
+although nothing was added. -/
+def exBig : Entry :=
+  { exA with usize := 0xFFFFFFFF, z64 := (true, true, true),
+             centralExtra := le16 0xcafe ++ le16 65503 ++ bigPayload }
+
+theorem exBig_len : exBig.centralExtra.length = 65507 := by
+  show (le16 0xcafe ++ le16 65503 ++ bigPayload).length = 65507
+  simp only [List.length_append, le16_length, bigPayload_length]
+
+theorem exBig_fits : exBig.Fits := by
+  refine ⟨by decide, by decide, by decide, ?_, by decide, by decide⟩
+  rw [exBig_len]; decide
+
+theorem exBig_readable : exBig.Readable := by
+  refine ⟨?_, by decide⟩
+  have := extraOk_single 0xcafe bigPayload (by decide) (by decide) (by rw [bigPayload_length]; decide)
+  rw [bigPayload_length] at this
+  exact this
+
+theorem exBig_not_fits : ¬ AppendFits exBig 0 0 := by
+  unfold AppendFits
+  have h1 : (centralZip64Bytes (viewEntry exBig 0 0 0)).length = 12 := by decide +kernel
+  have h2 : (exBig.centralZ64 (UInt64.ofNat 0)).length = 28 := by decide +kernel
+  rw [h1]
+  simp only [Entry.centralExtraAll, List.length_append, h2, exBig_len]
+  decide
+
+/-- the finding itself: `finish()` on the just-opened archive fails -/
+theorem finding_append_extra_overflow : exBig.Fits ∧ exBig.Readable ∧ ¬ AppendFits exBig 0 0 ∧
+    centralHeaderChunks (viewEntry exBig 0 0 0) = .err .invalidArchive := by
+  refine ⟨exBig_fits, exBig_readable, exBig_not_fits, ?_⟩
+  have h := exBig_not_fits
+  unfold AppendFits at h
+  unfold centralHeaderChunks
+  have : (centralZip64Bytes (viewEntry exBig 0 0 0)).length + (viewEntry exBig 0 0 0).extraField.length > 65535 := by
+    have e : (viewEntry exBig 0 0 0).extraField = exBig.centralExtraAll (UInt64.ofNat 0) := rfl
+    rw [e]; omega
+  simp only [this, if_true]
 
 end ZipVerif.Props.C13
